@@ -129,7 +129,41 @@ def gen_vectors(repo, out):
             items.append('(%s, unhex "%s")' % (kinds[st], re.sub(r'\s+', '', hx)))
     out.append('Definition gen_struct_vectors : list (pkind * bytes) := [%s].' % ';\n  '.join(items))
 
-EXTRA = [gen_vectors]
+def enum_variants(src, name):
+    body = need(re.search(r'pub enum %s(?:<[^>]*>)? \{(.*?)\n\}' % name, src, re.S), f'enum {name}').group(1)
+    body = re.sub(r'//.*', '', body)
+    body = re.sub(r'#\[[^\]]*\]', '', body)
+    return [v for v in re.findall(r'^\s*(\w+)\s*(?:\([^)]*\))?\s*,', body, re.M)]
+
+def storage_mappers(src):
+    return re.findall(r'#\[storage_mapper\("(\w+)"\)\]', src)
+
+def events(src):
+    return re.findall(r'#\[event\("(\w+)"\)\]', src)
+
+def strlist(xs):
+    return '[%s]%%string' % '; '.join('"%s"' % x for x in xs)
+
+def gen_gateway(repo, out):
+    c = read(repo, 'gateway/src/constants.rs')
+    m = need(re.search(r'pub const MULTIVERSX_SIGNED_MESSAGE_PREFIX: &\[u8; (\d+)\] = b"(.*?)";', c), 'MULTIVERSX_SIGNED_MESSAGE_PREFIX')
+    pre = rust_bytes_literal(m.group(2))
+    if len(pre) != int(m.group(1)):
+        raise GenError('prefix length mismatch')
+    out.append('Definition gen_gw_signed_prefix : bytes := %s.' % coq_str(pre))
+    out.append('Definition gen_gw_command_types : list string := %s.' % strlist(enum_variants(c, 'CommandType')))
+    m = need(re.search(r'const MESSAGE_EXECUTED: &\[u8; 1\] = b"(.*?)";', c), 'MESSAGE_EXECUTED')
+    out.append('Definition gen_gw_message_executed : bytes := %s.' % coq_str(rust_bytes_literal(m.group(1))))
+    out.append('Definition gen_gw_message_states : list string := %s.' % strlist(enum_variants(c, 'MessageState')))
+    # field order of the hashed / decoded structs
+    for st in ['Message', 'WeightedSigner', 'WeightedSigners', 'Proof', 'CrossChainId']:
+        body = need(re.search(r'pub struct %s<M: ManagedTypeApi> \{(.*?)\}' % st, c, re.S), f'struct {st}').group(1)
+        out.append('Definition gen_gw_%s_fields : list string := %s.' % (st, strlist(re.findall(r'pub (\w+):', body))))
+    srcs = ''.join(read(repo, 'gateway/src/%s.rs' % f) for f in ['lib', 'auth', 'operator'])
+    out.append('Definition gen_gw_storage : list string := %s.' % strlist(sorted(set(storage_mappers(srcs)))))
+    out.append('Definition gen_gw_events : list string := %s.' % strlist(events(read(repo, 'gateway/src/events.rs'))))
+
+EXTRA = [gen_vectors, gen_gateway]
 
 if __name__ == '__main__':
     main()
